@@ -20,7 +20,7 @@ func init() {
 	register(&simk.Prop{
 		ID:    "C19",
 		Level: "fault_enumeration",
-		Rule: "seeded histories (<=14 ops) of consecutive accepts, accepts after a height gap (state sync), historical saves of older blocks, restarts with the same or another window, windows 0/1/2/3/5, on the real ChainIndex over a crash-injecting database; for every history the number W of durable writes is counted in a fault-free run and the history is then re-run W more times, crashing before write k (k=1..W, exhaustive for that history), restarting and finishing the history; after every operation all queries are compared with a window model; " +
+		Rule: "seeded histories (<=14 ops) of consecutive accepts, accepts after a height gap (state sync), the last accepted block recorded again (same sync target after a restart), historical saves of older blocks, restarts with the same or another window, windows 0/1/2/3/5, on the real ChainIndex over a crash-injecting database; for every history the number W of durable writes is counted in a fault-free run and the history is then re-run W more times, crashing before write k (k=1..W, exhaustive for that history), restarting and finishing the history; after every operation all queries are compared with a window model; " +
 			"non-trivial = the history contains a gap, a historical save or a restart; distinct = distinct (history, crash point) hashes",
 		Exec:        c19,
 		Real:        []string{"chainindex.ChainIndex (UpdateLastAccepted, SaveHistorical, cleanupOnStartup, lookups)"},
@@ -217,7 +217,13 @@ func c19(r *simk.Run) *simk.Violation {
 	interesting := false
 	stored := map[uint64]bool{}
 	for tries := 0; len(ops) < nOps && tries < 300; tries++ {
-		switch c.Weighted(8, 2, 2, 2) {
+		switch c.Weighted(8, 2, 2, 2, 1) {
+		case 4: // the last accepted block is recorded again (the same sync target after a restart)
+			if next == 0 || len(ops) == 0 {
+				continue
+			}
+			ops = append(ops, c19Op{Kind: "accept", Height: next - 1})
+			interesting = true
 		case 0:
 			ops = append(ops, c19Op{Kind: "accept", Height: next})
 			stored[next] = true
